@@ -181,6 +181,7 @@ class ComplementProjector(LinearOperator):
         )
         self._left_vecs = vecs if self._hermitian else left_vecs
         self.dtype = np.result_type(self._vecs.dtype, self._left_vecs.dtype)
+        super().__init__(self.dtype, self.shape)
         self._adjoint_operator = self if self._hermitian else None
         self._conjugate_operator = None
         self._transpose_operator = None
